@@ -243,3 +243,44 @@ func verifC16Variants(maxLen int) {
 func VerifC16Variants3() { verifC16Variants(3) }
 func VerifC16Variants4() { verifC16Variants(4) }
 func VerifC16Variants5() { verifC16Variants(5) }
+
+var verifSentences = []string{"a.b", "a.b^", "(a.b)", "@type", "a.b / c.d", "a.b | c.d", "a.b / (c.d | e.f^)", "( a.b )", "a.b\t/\nc.d", "x-1.y_2/z"}
+
+// VerifC16Edits: every single-byte edit (insert / replace / delete at any position) of a set
+// of sentences, and every two-byte tail appended to them, with the edited bytes symbolic.
+func VerifC16Edits() {
+	base := verifSentences[v.Choice("sentence", len(verifSentences))]
+	kind := v.Choice("edit", 4)
+	var s string
+	switch kind {
+	case 0: // insert one arbitrary byte
+		pos := v.Choice("pos", len(base)+1)
+		s = base[:pos] + v.Bytes("b", 1) + base[pos:]
+	case 1: // replace one byte
+		pos := v.Choice("pos", len(base))
+		s = base[:pos] + v.Bytes("b", 1) + base[pos+1:]
+	case 2: // delete one byte
+		pos := v.Choice("pos", len(base))
+		s = base[:pos] + base[pos+1:]
+	default: // append two arbitrary bytes
+		s = base + v.Bytes("b", 2)
+	}
+	for i := 0; i < len(s); i++ {
+		v.Assume(s[i] < 0x80)
+	}
+	pp, err, panicked := verifParsePath(s)
+	accepted := !panicked && err == nil
+	ref, sentence := refSentence(trimRightWs(s), 3)
+	if accepted {
+		v.Reach("accepted")
+		v.Assert("C16.accept-only-sentences", sentence)
+		if sentence {
+			v.Assert("C16.structure", renderPath(pp) == ref)
+			v.Assert("C16.source-kept", pp.Source() == s)
+		}
+	} else {
+		v.Reach("rejected")
+		v.Assert("C16.reject-is-error", !panicked && err != nil)
+		v.Assert("C16.sentences-accepted", !sentence)
+	}
+}
